@@ -15,7 +15,7 @@ VARIABLES i, l, st, err
 tvars == <<i, l, st, err>>
 
 Ceil(a, b) == (a + b - 1) \div b
-NChunks(tr) == Ceil(tr.T, tr.CS)
+NChunks(tr) == IF tr.CS < 1 THEN 0 ELSE Ceil(tr.T, tr.CS)     \* an explicit chunk size of 0 submits nothing
 ChunkTasks(tr, c) == [j \in 1..(IF c * tr.CS <= tr.T THEN tr.CS ELSE tr.T - (c - 1) * tr.CS) |-> (c - 1) * tr.CS + j]
 SeqSet(s) == {s[j] : j \in DOMAIN s}
 
